@@ -73,6 +73,8 @@ impl<'a> Eval<'a> {
             fol::GeneralTerm::FunctionConstant(c) => self.ht.consts.get(c).cloned(),
             fol::GeneralTerm::Variable(v) => match env.get(v, Sort::General) { Some(x) => Some(x.clone()), None => panic!("unbound general variable {v}") },
             fol::GeneralTerm::IntegerTerm(t) => self.int_term(t, env).map(Val::Int),
+            // a symbolic constant that the user guide declares as a placeholder stands for the placeholder's value ("@name")
+            fol::GeneralTerm::SymbolicTerm(fol::SymbolicTerm::Symbol(s)) if self.ht.consts.contains_key(&format!("@{s}")) => self.ht.consts.get(&format!("@{s}")).cloned(),
             fol::GeneralTerm::SymbolicTerm(t) => self.sym_term(t, env).map(Val::Sym),
         }
     }
